@@ -402,7 +402,7 @@ def is_plain(loc, fs_paths, base_phys):
 # plain initializer so that single-tensor models (load_to_model path) keep their shape
 PLACEMENTS = ["initializer", "node-attribute", "subgraph-initializer", "function-node-attribute",
               "tensors-attribute", "subgraph-node-attribute", "function-subgraph-initializer",
-              "nested-subgraph-node-attribute"]
+              "nested-subgraph-node-attribute", "nested-subgraph-initializer"]
 
 
 def _ext_tensor_proto(onnx, name, loc):
@@ -418,7 +418,7 @@ def _ext_tensor_proto(onnx, name, loc):
 
 
 def build_model(onnx, locs, path, placements=True):
-    """A model file whose n-th external tensor (name t<n>) sits at PLACEMENTS[n % 8] (all initializers when
+    """A model file whose n-th external tensor (name t<n>) sits at PLACEMENTS[n % 9] (all initializers when
     placements is False)."""
     h = onnx.helper
     by = {pl: [] for pl in PLACEMENTS}
@@ -435,10 +435,11 @@ def build_model(onnx, locs, path, placements=True):
     nodes = consts(by["node-attribute"], "c")
     if by["tensors-attribute"]:
         nodes.append(h.make_node("Multi", [], ["multi_o"], domain="vf.custom", tensors=by["tensors-attribute"]))
-    if by["subgraph-initializer"] or by["subgraph-node-attribute"] or by["nested-subgraph-node-attribute"]:
-        inner = body("inner", consts(by["nested-subgraph-node-attribute"], "n"))
+    if (by["subgraph-initializer"] or by["subgraph-node-attribute"] or by["nested-subgraph-node-attribute"]
+            or by["nested-subgraph-initializer"]):
+        inner = body("inner", consts(by["nested-subgraph-node-attribute"], "n"), by["nested-subgraph-initializer"])
         then_nodes = consts(by["subgraph-node-attribute"], "s")
-        if by["nested-subgraph-node-attribute"]:
+        if by["nested-subgraph-node-attribute"] or by["nested-subgraph-initializer"]:
             then_nodes.append(h.make_node("If", ["cond"], ["inner_if_o"], then_branch=inner, else_branch=body("inner_else", [])))
         nodes.append(h.make_node("If", ["cond"], ["if_o"], then_branch=body("then", then_nodes, by["subgraph-initializer"]),
                                  else_branch=body("else", [])))
@@ -471,7 +472,8 @@ def model_tensors(ir, model):
     def graph(g, where, depth):
         for v in (g.initializers.values() if hasattr(g, "initializers") else ()):
             if v.const_value is not None:
-                found[v.const_value.name] = (v.const_value, f"{where}{'subgraph-' if depth else ''}initializer")
+                found[v.const_value.name] = (v.const_value, where + ("nested-subgraph-" if depth > 1 else "subgraph-" if depth else "")
+                                             + "initializer")
         for node in g:
             for a in node.attributes.values():
                 if a.is_ref() or a.value is None:
